@@ -70,7 +70,7 @@ def sampling_cfg(rng):
 
 def _sampling_cfg(rng):
     kind = rng.choice(H.KINDS)
-    system = rng.choice(["decay", "birth", "rev"])
+    system = rng.choice(["decay", "birth", "rev", "tri"])
     policy = rng.choice(["on_t_sample", "on_t_sample", "on_iteration", "on_interval", "on_interval", "no_sampling"])
     dt = rng.choice([0.1, 0.25, 0.3, 0.5, 1 / 3, 0.07, 0.001, 0.125])
     nsteps = rng.randint(2, 18)
@@ -137,6 +137,8 @@ def _sampling_cfg(rng):
             c["dt"] = "%r %s" % (c["dt"] * fu / fv, v)
         if rng.random() < 0.3:
             c["interval"] = "%r %s" % (c["interval"] * fu / fv, v)
+    if rng.random() < 0.35 or c["system"] == "tri":
+        c["isp"] = rng.choice(["none", "Poisson", "Poisson", "redist", "auto"])
     r = rng.random()
     if r < 0.12:
         k = rng.randint(1, 3)
